@@ -225,7 +225,7 @@ class EvolvableResNet(EvolvableModule):
             numb_new_channels = np.random.choice([8, 16, 32], 1)[0]
 
         # HARD LIMIT
-        if self.channel_size + numb_new_channels < self.max_channel_size:
+        if self.channel_size + numb_new_channels <= self.max_channel_size:
             self.channel_size = int(self.channel_size + numb_new_channels)
 
         return {"numb_new_channels": numb_new_channels}
@@ -246,7 +246,7 @@ class EvolvableResNet(EvolvableModule):
             numb_new_channels = np.random.choice([8, 16, 32], 1)[0]
 
         # HARD LIMIT
-        if self.channel_size - numb_new_channels > self.min_channel_size:
+        if self.channel_size - numb_new_channels >= self.min_channel_size:
             self.channel_size = int(self.channel_size - numb_new_channels)
 
         return {"numb_new_channels": numb_new_channels}
